@@ -8,6 +8,7 @@ mod observers;
 mod product;
 mod real;
 mod scriptvec;
+mod truncate;
 
 use serde_json::{json, Value};
 use std::collections::HashMap;
@@ -41,6 +42,7 @@ fn main() {
         "drive" => cmd_drive(&m),
         "record" => cmd_record(&m),
         "merge" => cmd_merge(&m),
+        "truncate" => cmd_truncate(&m),
         "scriptvec" => cmd_script(&m),
         "labelvec" => {
             let paths: Vec<PathBuf> = m.get("vectors").expect("--vectors").iter().map(PathBuf::from).collect();
@@ -210,6 +212,49 @@ fn cmd_script(m: &HashMap<String, Vec<String>>) -> i32 {
     let t0 = std::time::Instant::now();
     let mut j = scriptvec::run(&paths, &o, stride, offset);
     j["wall_s"] = json!(t0.elapsed().as_secs_f64());
+    let out = serde_json::to_string(&j).unwrap();
+    if let Some(p) = one(m, "out") {
+        std::fs::write(p, &out).unwrap();
+    } else {
+        println!("{out}");
+    }
+    0
+}
+
+fn cmd_truncate(m: &HashMap<String, Vec<String>>) -> i32 {
+    let ts_paths: Vec<PathBuf> = m.get("ts").expect("--ts").iter().map(PathBuf::from).collect();
+    let tokens_json: Value = serde_json::from_str(one(m, "tokens").expect("--tokens")).expect("tokens json");
+    let tk = model::Tokens::from_json(&tokens_json);
+    let o = product::Opts {
+        n: one(m, "n").unwrap_or("2").parse().unwrap(),
+        cap: one(m, "cap").unwrap_or("3").parse().unwrap(),
+        budget: 0,
+        scratch: PathBuf::from(one(m, "scratch").unwrap_or(".")),
+        observers: vec![],
+        witness_out: one(m, "witness-out").map(PathBuf::from),
+        max_witness_per_sig: 3,
+        max_witnesses: one(m, "max-witnesses").unwrap_or("6").parse().unwrap(),
+        tokens_json: tokens_json.clone(),
+    };
+    let ts = product::load_ts(&ts_paths, &tk);
+    // real-limit graphs: call lists extracted from recorded traces (--extra FILE: JSON list of {calls:[...]})
+    let mut extra = vec![];
+    if let Some(p) = one(m, "extra") {
+        let v: Value = serde_json::from_str(&std::fs::read_to_string(p).unwrap()).unwrap();
+        for w in v.as_array().unwrap() {
+            let calls: Vec<exec::HCall> = w["calls"].as_array().unwrap().iter().map(exec::HCall::from_json).collect();
+            let mut labels: Vec<String> = vec![];
+            for c in &calls {
+                if let exec::Call::Bind { a, .. } = &c.call {
+                    if !labels.contains(a) {
+                        labels.push(a.clone());
+                    }
+                }
+            }
+            extra.push((calls, labels));
+        }
+    }
+    let j = truncate::run(&ts, &tk, &o, one(m, "max-images").unwrap_or("150").parse().unwrap(), extra);
     let out = serde_json::to_string(&j).unwrap();
     if let Some(p) = one(m, "out") {
         std::fs::write(p, &out).unwrap();
